@@ -268,6 +268,18 @@ class C10(Property):
                     how = ET_EDITS[(i + len(edits)) % len(ET_EDITS)] if rng.random() < 0.5 else rng.choice(ET_EDITS)
                     et2 = edit_et(rng, et2, ots2, how)
                     edits.append('et:' + how)
+            if i % 6 == 5:
+                # two edits of ONE object type in one step: an allowed change of its hard regular expression or enumeration
+                # together with another change of its definition
+                with_rx = [k for k, o in enumerate(ots2) if o['regexHard'] or o['dataType'].startswith('enum:')]
+                if with_rx:
+                    k = rng.choice(with_rx)
+                    first = rng.choice(['regex-extend', 'regex-drop'] if ots2[k]['regexHard'] else ['enum-extend'])
+                    second = rng.choice(['datatype-change', 'datatype-change', 'regex-replace', 'enum-shrink', 'free-change'])
+                    v = ots2[k]['version']
+                    ots2[k] = edit_ot(rng, edit_ot(rng, ots2[k], first), second)
+                    ots2[k]['version'] = v + 1
+                    edits += ['ot:' + first, 'ot:' + second]
             c = {'kind': 'upgrade', 'ots': ots, 'et': et, 'ots2': ots2, 'et2': et2, 'edits': edits,
                  'events': gen_events(rng, ots, et, 6)}
             if rng.random() < 0.4:
